@@ -153,8 +153,13 @@ fn mips_is_control(w: u32) -> bool {
     let op = w >> 26;
     (1..=7).contains(&op) || (op == 0 && matches!(w & 0x3f, 8 | 9))
 }
-/// control transfers placed in the delay slot of another one: beq $1,$2,+4 ; j ; jr $ra ; bal
-const MIPS_CTL_SLOTS: [u32; 4] = [0x10220004, 0x08000400, 0x03e00008, 0x04110001];
+/// control transfers placed in the delay slot of another one: EVERY control-transfer mnemonic the lifter knows
+/// (b bal beq beqz bne bnez blez bgtz bltz bgez bltzal bgezal j jal jr jalr) and the branch-likely variants
+const MIPS_CTL_SLOTS: [u32; 24] = [
+    0x10000004, 0x04110001, 0x10220004, 0x10800004, 0x14220004, 0x14800004, 0x18800008, 0x1c800008, // b bal beq beqz bne bnez blez bgtz
+    0x04800004, 0x04810004, 0x04900004, 0x04910004, 0x08000400, 0x0c000400, 0x03e00008, 0x0320f809, // bltz bgez bltzal bgezal j jal jr jalr
+    0x50220004, 0x54220004, 0x58800004, 0x5c800004, 0x04820004, 0x04830004, 0x04920004, 0x04930004, // beql bnel blezl bgtzl bltzl bgezl bltzall bgezall
+];
 fn ppc_words(full: bool) -> Vec<u32> {
     // rD also carries the CR field of the compares: 28 = cr7 (L = 0), 4 = cr1
     const PPC_REGS_Q: [(u32, u32); 5] = [(0, 0), (1, 2), (31, 31), (28, 3), (4, 0)];
@@ -370,6 +375,7 @@ fn corpus() -> Vec<(usize, u64, Vec<u8>, &'static str)> {
         (3, 0x1000, [le(0x10220004), le(0)].concat(), "corpus:mipsel-beq"),
         (2, 0x1000, [be(0x0320f809), be(0)].concat(), "corpus:mips-jalr"),
         (2, 0x2639e8, [be(0x180028b8), be(0x14567a3c), be(0x8000091a)].concat(), "corpus:mips-branch-in-delay-slot"),
+        (2, 0x1000, [be(0x10850004), be(0x18800008), be(0)].concat(), "corpus:mips-blez-in-delay-slot"),
         (2, 0x242cc8, [be(0xba56405c), be(0x09e9042a), be(0x0f3d7fff), be(0xbcd51466)].concat(), "corpus:mips-jal-in-delay-slot-of-j"),
         (2, 0x1000, be(0x0062080b), "corpus:mips-movn"),
         (2, 0xffff_ffff_ffff_fff0, [be(0), be(0), be(0), be(0)].concat(), "corpus:mips-top-of-memory"),
